@@ -120,7 +120,7 @@ pub fn units(tier: Tier, _seed: u64) -> Vec<Unit> {
             if n <= 4 { u.push(unit!(format!("C04/affine/{m:?}/N={n}/k={kk}"), affine(m, n, kk))); }
         }
         u.push(unit!(format!("C04/ema-recurrence/alpha=2/N={n}/k={k}"), ema_rec(n, k, false)));
-        if tier == Tier::Thorough && n <= 3 { u.push(unit!(format!("C04/ema-recurrence/alpha=symbolic/N={n}/k={k}"), ema_rec(n, k, true))); }
+        if n <= (if tier == Tier::Thorough { 3 } else { 2 }) { u.push(unit!(format!("C04/ema-recurrence/alpha=symbolic/N={n}/k={k}"), ema_rec(n, k.min(6), true))); }
         for (s, o) in [(6.0, 0.85), (3.0, 0.5), (9.0, 1.0), (1.5, 0.1)] {
             let kk = 3 * n + 1;
             u.push(unit!(format!("C04/alma-definition/sigma={s}/offset={o}/N={n}/k={kk}"), alma_def(n, kk, s, o)));
@@ -131,7 +131,7 @@ pub fn units(tier: Tier, _seed: u64) -> Vec<Unit> {
 pub fn meta() -> Meta {
     Meta {
         functions: vec!["Sma::{new,update,last}", "Ema::{new,with_alpha,update,last}", "Alma::{new,new_custom,update,last}", "Echo::{update,last}"],
-        bounds: "N in {1,2,3} (quick) / {1..6} (thorough); k = 2N+2 (3N+1 for Alma); inputs unconstrained reals (|x|<=1 for the Alma kernel obligation); a>0, b, c and the monotone increments d>=0 are solver variables; Ema alpha = 2 and (thorough) symbolic alpha in [0,N+1]; Alma (sigma,offset) in {(6,.85),(3,.5),(9,1),(1.5,.1)}; every comparison outcome explored (Ema's state==0 test is a branch)",
+        bounds: "N in {1,2,3} (quick) / {1..6} (thorough); k = 2N+2 (3N+1 for Alma); inputs unconstrained reals (|x|<=1 for the Alma kernel obligation); a>0, b, c and the monotone increments d>=0 are solver variables; Ema alpha = 2 and symbolic alpha in [0,N+1] (N<=2 quick, N<=3 thorough); Alma (sigma,offset) in {(6,.85),(3,.5),(9,1),(1.5,.1)}; every comparison outcome explored (Ema's state==0 test is a branch)",
         outside: vec!["N > 6, longer streams", "arbitrary real sigma/offset (four concrete pairs are checked)", "f64 rounding"],
         assumptions: vec!["Alma weights: exp() of a concrete argument is evaluated by the platform libm; the oracle computes its own weights in plain f64 and the comparison allows 1e-9"],
     }
